@@ -200,9 +200,94 @@ fn green() {
     assert!(same && !eq);
 }
 
+/// C06, deterministic: which handle is the LAST one — the root, an inner node, a token under an inner node, a token
+/// under the root — on this thread or on another one; handles re-pointed across trees with clone_from and swapped.
+/// Every handle is used after the others are gone (its memory must still be valid).
+fn handles() {
+    let mk = || -> SyntaxNode<K, u32> {
+        let r = SyntaxNode::new_root(tree());
+        r.set_data(7);
+        r
+    };
+    // the root last
+    {
+        let root = mk();
+        let inner = root.first_child().unwrap().clone();
+        let tok = inner.first_token().unwrap().clone();
+        drop(tok);
+        drop(inner);
+        assert_eq!(walk(&root), 8);
+    }
+    // an inner node last
+    {
+        let root = mk();
+        let inner = root.first_child().unwrap().clone();
+        inner.set_data(1);
+        drop(root);
+        assert_eq!(inner.parent().unwrap().kind(), K(1));
+        assert_eq!(u32::from(inner.text_range().end()), 2);
+        assert_eq!(inner.get_data().map(|d| *d), Some(1));
+    }
+    // a token under an inner node last
+    {
+        let root = mk();
+        let inner = root.first_child().unwrap().clone();
+        let tok = inner.last_token().unwrap().clone();
+        drop(inner);
+        drop(root);
+        assert_eq!(tok.parent().kind(), K(2));
+        assert_eq!(tok.parent().parent().unwrap().get_data().map(|d| *d), Some(7));
+    }
+    // a token directly under the root last
+    {
+        let root = mk();
+        let tok = root.last_token().unwrap().clone();
+        drop(root);
+        assert_eq!(u32::from(tok.text_range().start()), 4);
+    }
+    // an inner node last, on another thread
+    {
+        let root = mk();
+        let inner = root.children().nth(1).unwrap().clone();
+        drop(root);
+        thread::spawn(move || {
+            assert_eq!(inner.kind(), K(3));
+            drop(inner);
+        })
+        .join()
+        .unwrap();
+    }
+    // handles re-pointed across trees
+    {
+        let a = mk();
+        let b = mk();
+        let mut h = a.first_child().unwrap().clone();
+        let x = b.children().nth(1).unwrap().clone();
+        h.clone_from(&x);
+        drop(a); // h no longer points into a: a goes here
+        drop(x);
+        drop(b);
+        assert_eq!(h.parent().unwrap().get_data().map(|d| *d), Some(7));
+        let mut v: Vec<SyntaxNode<K, u32>> = vec![mk(), mk()];
+        let w: Vec<SyntaxNode<K, u32>> = vec![h.clone(), h.clone(), h.clone()];
+        v.clone_from(&w);
+        drop(w);
+        drop(h);
+        assert_eq!(v.len(), 3);
+        assert_eq!(v[2].kind(), K(3));
+        let mut p = mk();
+        let mut q = v[0].clone();
+        std::mem::swap(&mut p, &mut q);
+        drop(v);
+        drop(q);
+        assert_eq!(p.kind(), K(3));
+    }
+}
+
 fn main() {
     let which = std::env::args().nth(1).unwrap_or_else(|| "all".into());
     match which.as_str() {
+        "handles" => handles(),
         "traverse" => traverse(),
         "clone_drop" => clone_drop(),
         "data" => data(),
@@ -212,6 +297,7 @@ fn main() {
             clone_drop();
             data();
             green();
+            handles();
         }
     }
     println!("done {which}");
